@@ -513,6 +513,41 @@ def maps(ctx):
     A.require('CoreDocument::map_unchecked/forwards-the-four-functions-in-their-roles', paths, r_mu, replay=RB)
 
 
+def unpack_from_output(ctx, prog):
+    """IotaDocument::unpack_from_output (what resolution uses): the empty deactivated document is produced only for *empty* state metadata
+    with allow_empty; non-empty metadata goes through StateMetadataDocument::unpack and every error of it is returned (a truncated header
+    or a length prefix exceeding the data must not turn into a deactivated document)."""
+    A = Auditor(ctx, prog)
+    fs = prog.find(r'<impl at [^>]*iota_document\.rs[^>]*>::unpack_from_output$')
+    if not fs:
+        return          # built without the client feature
+    paths, ex = A.paths(fs[0])
+
+    def r_uo(p):
+        if p.kind != 'return':
+            return None
+        un = p.find_calls(r'StateMetadataDocument::unpack$')
+        if un and p.took(un[0], 'Err'):
+            t = p.term()
+            if not (p.is_err() and is_sub_t14(t, ('field', un[0].ret, 0, 'Err'))):
+                return 'an error of StateMetadataDocument::unpack is not returned (e.g. turned into an empty document)'
+            return None
+        ne = p.find_calls(r'IotaDocument::new_with_id$')
+        if ne and p.is_ok():
+            ie = [c for c in p.calls if re.search(r'::is_empty$', c.name) and apps(('x', tuple(c.args)), r'state_metadata$')]
+            if not ie or not p.took(ie[0].ret, 'true'):
+                return 'the empty document is produced although the state metadata was not tested to be empty'
+            if un:
+                return 'the empty document is produced after an unpack attempt'
+        return None
+    A.require('IotaDocument::unpack_from_output/empty-document-only-for-empty-metadata-errors-returned', paths, r_uo,
+              replay={'scenario': 'state_metadata', 'cex': {'only': '[from-output]'}})
+
+
+def is_sub_t14(t, want):
+    return any(x == want for x in subterms(t))
+
+
 def main(ctx):
     prog, info = load(CRATES)
     ctx.extra['mir'] = info
@@ -521,6 +556,7 @@ def main(ctx):
     guarded(ctx, 'state metadata framing and rebasing', 'M', lambda: run(ctx, prog))
     guarded(ctx, 'rewriting primitives (map / try_map)', 'M', lambda: maps(ctx))
     guarded(ctx, 'serde skip predicates of the packed structures', 'M', lambda: serde_skips(ctx, prog))
+    guarded(ctx, 'unpack_from_output', 'M', lambda: unpack_from_output(ctx, prog))
     # unpacking rebuilds the document through the constructor gate: what pack accepted must pass it again - identifiers are told apart
     # as whole DID URLs (C04's gate obligation, re-used)
     import c04
